@@ -113,8 +113,15 @@ peg::parser! {
             }
 
         rule single_char_bracket_member() -> (String, char) =
-            // Preserve escaped characters as-is.
-            ['\\'] [c] { (std::format!("\\{c}"), c) } /
+            // An escaped character stands for itself. A letter or digit must lose its backslash:
+            // the regex engine would read `\b`, `\d`, `\w` etc. as escapes of its own.
+            ['\\'] [c] {
+                if c.is_alphanumeric() {
+                    (c.to_string(), c)
+                } else {
+                    (std::format!("\\{c}"), c)
+                }
+            } /
             // Escape opening bracket.
             ['['] { (String::from(r"\["), '[') } /
             // Any other character except closing bracket gets added as-is.
